@@ -116,6 +116,18 @@ def cascade(F, R):
             seqs = tokens_on_paths(f, cl)
             R.seen(f); R.anchor('entry-variant:' + be)
             ok = all(s in (['E', 'S'], ['E', 'W', 'S'], ['E', 'F', 'S'], ['E', 'W', 'S', 'P']) for s in seqs)
+            # which variant this instantiation is follows from the wrapped target of its event parameter: an entry point must
+            # re-submit the event with process_event (enqueue_event does nothing in a machine without message queue), a fork sets
+            # every named region, a single explicit entry one, a plain entry none
+            pt0 = strip_cvref(f.param_types()[0]) if f.param_types() else ''
+            h0, a0, _r0 = parse_type(pt0)
+            if h0.endswith('direct_entry_event') and a0:
+                tgt0 = a0[0]
+                want_seq = ['E', 'W', 'S', 'P'] if '::entry_pt<' in tgt0 else ['E', 'F', 'S'] if type_list(tgt0) is not None else ['E', 'W', 'S']
+            else: want_seq = ['E', 'S']
+            if ok and not all(s == want_seq for s in seqs):
+                ok = False
+                R.find('C09.entry', f, 'entry-variant-kind', 'the %s entry variant runs %s, required %s (own entry, explicit ids, start of the substates%s)' % ('entry-point' if want_seq[-1] == 'P' else 'fork' if 'F' in want_seq else 'explicit' if 'W' in want_seq else 'plain', seqs, want_seq, ', then process_event of the same event' if want_seq[-1] == 'P' else ''))
             # the substates are started with the unwrapped event, the entry point re-submits the same event
             unwrapped = True
             for i, n in f.calls():
